@@ -262,9 +262,21 @@ extern std::uint64_t gTrackedCopies;
 extern std::uint64_t gTrackedMoves;
 }  // namespace detail
 
+// Fault: constructing a payload from a Bomb throws (sim::TaggedEx{id}, see util.cpp) before anything is constructed.
+struct Bomb {
+  std::uint32_t id;
+};
+namespace detail {
+[[noreturn]] void ThrowBomb(std::uint32_t id);
+}  // namespace detail
+
 class Tracked {
  public:
   enum : std::uint8_t { kAlive = 0xA1, kMoved = 0xB2, kDead = 0xDD };
+
+  explicit Tracked(const Bomb& b) {
+    detail::ThrowBomb(b.id);
+  }
 
   Tracked() noexcept : Tracked{0} {
   }
